@@ -414,7 +414,8 @@ Section SolverC.
   (* the C09 law for an objective, in the form the optimiser uses it: localized at sequence s to the
      window [a,b) and re-initialised on the local problem *)
   Definition faithful (ob : spec) : Prop :=
-    forall a b s s', good space n s -> good space n s' -> agree_out a b s s' ->
+    forall a b s s', 0 <= a -> a < b -> b <= n ->
+      good space n s -> good space n s' -> agree_out a b s s' ->
       match localize ob (mkLoc a b 0) true s with
       | LSome ob' => let ob'' := reinit true ob' s in
                      boost ob'' = boost ob /\
@@ -461,6 +462,37 @@ Section SolverC.
     intros x y c Hc. apply space_fits. eapply sub_In; [apply localized_sub | exact Hc].
   Qed.
 
+  (* the span of a localized space is a non-empty window inside the sequence *)
+  Lemma last_In_ne : forall (l : list choice) d, l <> [] -> In (last l d) l.
+  Proof.
+    induction l as [|x l IH]; intros d H; [congruence|].
+    destruct l as [|y l]; [left; reflexivity|].
+    right. change (In (last (y :: l) d) (y :: l)). apply IH. discriminate.
+  Qed.
+
+  Lemma span_in_range : forall la lb a b,
+    choices_span (ms_localized space la lb) = Some (a, b) -> 0 <= a /\ a < b /\ b <= n.
+  Proof.
+    intros la lb a b Hspan.
+    pose proof (localized_wf_choices space space_wf la lb) as WF.
+    set (ms := ms_localized space la lb) in *.
+    assert (Hin0 : forall c, In c (multichoices ms) -> 0 <= cstart c < cend c /\ cend c <= n).
+    { intros c Hc. pose proof (multichoices_In _ _ Hc) as Hc'. split.
+      - destruct WF as [W1 _]. rewrite Forall_forall in W1. destruct (W1 c Hc') as (Hw & _ & _). exact Hw.
+      - eapply localized_fits; exact Hc'. }
+    assert (Hcov : forall c, In c (multichoices ms) -> a <= cstart c /\ cend c <= b)
+      by (intros c Hc; eapply span_covers; eauto).
+    unfold choices_span in Hspan.
+    destruct (multichoices ms) as [|c0 mc] eqn:E; [discriminate|].
+    assert (Ea : a = cstart c0) by (inversion Hspan; reflexivity).
+    assert (Eb : b = cend (last (c0 :: mc) c0)) by (inversion Hspan; reflexivity).
+    assert (H0 : In c0 (c0 :: mc)) by (left; reflexivity).
+    assert (Hl : In (last (c0 :: mc) c0) (c0 :: mc)) by (apply last_In_ne; discriminate).
+    pose proof (Hin0 _ H0) as [Hw0 _]. pose proof (Hcov _ H0) as [_ Hb0].
+    pose proof (Hin0 _ Hl) as [_ Hfl]. rewrite <- Eb in Hfl.
+    subst a. lia.
+  Qed.
+
   (* a variant of s w.r.t. a localized space is usable and agrees with s outside the span *)
   Lemma variant_agree : forall x y a b s t, good space n s ->
     choices_span (ms_localized space x y) = Some (a, b) ->
@@ -502,6 +534,7 @@ Section SolverC.
   (* KEY STEP: the global total and the local total (over the localized, re-initialised objectives
      with non-zero boost) move by the same amount *)
   Lemma local_diff : forall a b s0 s1 objs los,
+    0 <= a -> a < b -> b <= n ->
     (forall ob, In ob objs -> faithful ob) ->
     good space n s0 -> good space n s1 -> agree_out a b s0 s1 ->
     localize_all spec localize (filter (fun o => negb (Qeq_bool (boost o) 0)) objs) (mkLoc a b 0) s0
@@ -509,29 +542,29 @@ Section SolverC.
     (total objs s1 - total objs s0 ==
      total (map (fun o => reinit true o s0) los) s1 - total (map (fun o => reinit true o s0) los) s0)%Q.
   Proof.
-    intros a b s0 s1 objs. induction objs as [|o objs IH]; intros los Hfa Hg0 Hg1 Hag H.
+    intros a b s0 s1 objs. induction objs as [|o objs IH]; intros los Ha Hab Hb Hfa Hg0 Hg1 Hag H.
     - simpl in H. inversion H; subst. simpl. lra.
     - assert (Hfa' : forall ob, In ob objs -> faithful ob) by (intros ob Hin; apply Hfa; right; exact Hin).
       cbn [filter] in H. rewrite !total_cons.
       destruct (Qeq_bool (boost o) 0) eqn:Eb; cbn [negb] in H.
       + apply Qeq_bool_iff in Eb.
-        pose proof (IH los Hfa' Hg0 Hg1 Hag H) as IH'.
+        pose proof (IH los Ha Hab Hb Hfa' Hg0 Hg1 Hag H) as IH'.
         assert (H1 : (boost o * fst (ev o s1) == 0)%Q) by (rewrite Eb; lra).
         assert (H0 : (boost o * fst (ev o s0) == 0)%Q) by (rewrite Eb; lra).
         lra.
       + cbn [localize_all] in H.
-        pose proof (Hfa o (or_introl eq_refl) a b s0 s1 Hg0 Hg1 Hag) as Hf.
+        pose proof (Hfa o (or_introl eq_refl) a b s0 s1 Ha Hab Hb Hg0 Hg1 Hag) as Hf.
         destruct (localize o (mkLoc a b 0) true s0) as [|o'|] eqn:EL.
         * destruct (localize_all spec localize (filter (fun o => negb (Qeq_bool (boost o) 0)) objs)
                       (mkLoc a b 0) s0) as [r|] eqn:ELA; [|discriminate].
           inversion H; subst los.
-          pose proof (IH r Hfa' Hg0 Hg1 Hag eq_refl) as IH'.
+          pose proof (IH r Ha Hab Hb Hfa' Hg0 Hg1 Hag eq_refl) as IH'.
           assert (H1 : (boost o * fst (ev o s1) == boost o * fst (ev o s0))%Q) by (rewrite Hf; reflexivity).
           lra.
         * destruct (localize_all spec localize (filter (fun o => negb (Qeq_bool (boost o) 0)) objs)
                       (mkLoc a b 0) s0) as [r|] eqn:ELA; [|discriminate].
           inversion H; subst los.
-          pose proof (IH r Hfa' Hg0 Hg1 Hag eq_refl) as IH'.
+          pose proof (IH r Ha Hab Hb Hfa' Hg0 Hg1 Hag eq_refl) as IH'.
           cbn [map]. rewrite !total_cons.
           cbv zeta in Hf. destruct Hf as [Hk Hd]. rewrite Hk.
           assert (H1 : (boost o * (fst (ev (reinit true o' s0) s1) - fst (ev (reinit true o' s0) s0)) ==
@@ -592,7 +625,8 @@ Section SolverC.
         destruct HI as [HI1 HI2]. split; [exact HI1|]. split; [exact HI2 | exact Hmono]. }
     destruct Hloc as (Hg1 & Hag & Hmono).
     split; [exact Hg1|].
-    pose proof (local_diff a b s0 (cur _ lst) objs los Hfa Hg0 Hg1 Hag Hlos) as Hd.
+    destruct (span_in_range x y a b Hspan) as (Ha & Hab & Hb).
+    pose proof (local_diff a b s0 (cur _ lst) objs los Ha Hab Hb Hfa Hg0 Hg1 Hag Hlos) as Hd.
     fold lobjs in Hd. lra.
   Qed.
 
